@@ -95,6 +95,13 @@ def build(case):
     from vf.exprgen import layout as LY
 
     kind = case.get("layout_kind", "one-line")
+    if kind == "break-before-dot":
+        import ast
+
+        if isinstance(ast.parse(ctext, mode="eval").body, ast.NamedExpr):
+            # a top-level assignment expression needs parentheses of its own, which the message leaves out together with
+            # the ones the layout adds: the source segment is not the reported text then - use the plain layout
+            kind = "one-line"
     text, start, end, scope = RD.module_text(ctext, lam_params, role=case.get("role", "require"), is_async=case["async"],
                                              a_repr="AR" if case.get("limits") else None, layout=LY.make_layout(kind),
                                              prelude=prelude_for(case.get("limits")))
